@@ -6,16 +6,22 @@ Model: `Impl/CssNumber.lean` (`mangleNumber`, `shiftDot`, `mangleDimension` of i
 Specification: `Spec/JsNumber.lean`, section CSS (`cssValue`: CSS Syntax 3 §4.3.12/§4.3.13 — which texts are a
 <number-token> and their value as an exact rational).
 
-Two statements are FALSE of the code at full strength (both reproduced on the real esbuild, see the `example`s at
-the end), so the proved theorems carry an explicit hypothesis and are named `_partial`:
-  * `mangleNumber` strips trailing '0' bytes from the END of the text even when the text ends with an exponent:
-    `1.5e10` becomes `1.5e1`.
-  * `shiftDot` returns a text without any digit when all digits are '0' and the shifted dot position falls inside
-    or at the end of the digits: `shiftDot("00", -2) = ""`, so `scale(00%)` becomes `scale()` and `000ms` becomes `s`.
+History: two of these statements were FALSE of the code when the model was first written (found by this work and
+reproduced on the real esbuild), and were then repaired in /repo:
+  * `mangleNumber` stripped trailing '0' bytes from the END of the text even when the text ended with an exponent
+    (`1.5e10` became `1.5e1`); the loop is now guarded by `!strings.ContainsAny(t, "eE")`.
+  * `shiftDot` returned a text without any digit when all digits were '0' and the shifted dot landed at 0 after the
+    zeros were removed (`shiftDot("00", -2) = ""`: `scale(00%)` became `scale()`, `000ms` became `s`); it now
+    returns `sign + "0"` there.
+The theorems below are at full strength for the repaired code; the formerly failing inputs are `example`s at the end.
+
+Remark (unchanged behaviour, not a value change): `mangleDimension` compares units with `strings.EqualFold`, whose
+Unicode simple folding maps U+017F (ſ) to `s`; the unit `mſ` is therefore rewritten like `ms`. The model includes it.
 -/
 namespace EsbuildModel.C12Num
 open EsbuildModel.CssNumber EsbuildModel.NumText EsbuildModel.Spec.Num
 
+/-- `strings.ContainsAny(t, "eE")` -/
 def hasExponent (t : List Char) : Bool := t.any (fun c => c = 'e' ∨ c = 'E')
 
 theorem hasExponent_of_exp {s : Option Bool} {p : DecParts} {x : ExpPart} (h : p.exp = some x) :
@@ -25,48 +31,18 @@ theorem hasExponent_of_exp {s : Option Bool} {p : DecParts} {x : ExpPart} (h : p
   refine ⟨if x.upper then 'E' else 'e', ?_, by cases x.upper <;> simp⟩
   simp [DecParts.render, h, expText]
 
-theorem getLast_of_exp {s : Option Bool} {p : DecParts} {x : ExpPart} (h : p.exp = some x) (hne : x.digits ≠ []) :
-    (sgnText s ++ p.render).getLast? = x.digits.getLast? := by
-  have : (sgnText s ++ p.render).getLast? = (expText (some x)).getLast? := by
-    simp only [DecParts.render, h, ← List.append_assoc]
-    rw [List.getLast?_append]
-    cases h' : (expText (some x)).getLast? with
-    | none => simp [expText] at h'
-    | some c => simp
-  rw [this, expText_getLast hne]
-
--- OPEN (FALSE of the code, reproduced on real esbuild: `a{width:1.5e10px}` --minify → `a{width:1.5e1px}`):
---   theorem mangleNumber_preserves_value (t : List Char) (v : Rat) (h : cssValue t = some v) :
---       cssValue (mangleNumber t).1 = some v
--- What is missing: nothing in the proof — the code is wrong when the text has a '.', an exponent, and ends with '0'.
-
 /-- **B1.** For EVERY well-formed CSS number text (any sign, any number of digits, with or without '.', with or
-without exponent) whose exponent — if there is one — does not end with '0': the text returned by `mangleNumber`
-is a well-formed CSS number with exactly the same value. -/
-theorem mangleNumber_preserves_value_partial (t : List Char) (v : Rat) (h : cssValue t = some v)
-    (hexp : hasExponent t = true → t.getLast? ≠ some '0') :
+without exponent, whatever the exponent digits are): the text returned by `mangleNumber` is a well-formed CSS number
+with exactly the same value. -/
+theorem mangleNumber_preserves_value (t : List Char) (v : Rat) (h : cssValue t = some v) :
     cssValue (mangleNumber t).1 = some v := by
   obtain ⟨s, p, rfl, hw, hv, rfl⟩ := cssValue_sound h
-  apply mangleNumber_value s p hw hv
-  intro x hx
-  rw [← getLast_of_exp (s := s) hx (hw.exp x hx).2]
-  exact hexp (hasExponent_of_exp hx)
+  exact mangleNumber_value s p hw hv
 
-/-- … in particular for every number text without exponent. -/
-theorem mangleNumber_preserves_value_noexp (t : List Char) (v : Rat) (h : cssValue t = some v)
-    (hexp : hasExponent t = false) : cssValue (mangleNumber t).1 = some v :=
-  mangleNumber_preserves_value_partial t v h (by rw [hexp]; intro h; cases h)
-
--- OPEN (FALSE of the code, reproduced on real esbuild: `a{transform:scale(00%,50%)}` --minify → `scale(,.5)`;
--- `a{transition:000ms}` → `a{transition:s}`):
---   theorem shiftDot_scales_value (t : List Char) (v : Rat) (k : Int) (h : cssValue t = some v)
---       (hexp : hasExponent t = false) : ∃ out, shiftDot t k = some out ∧ cssValue out = some (v * 10 ^ k)
--- What is missing: for v = 0 the result can be the bare sign (no digit at all), which is not a number.
-
-/-- **B2.** For EVERY well-formed CSS number text without exponent and with a non-zero value, and EVERY shift k:
+/-- **B2.** For EVERY well-formed CSS number text without exponent (value zero included) and EVERY shift k:
 `shiftDot` succeeds, its result is a well-formed CSS number, and its value is the original value × 10^k. -/
-theorem shiftDot_scales_value_partial (t : List Char) (v : Rat) (k : Int) (h : cssValue t = some v)
-    (hexp : hasExponent t = false) (hnz : v ≠ 0) :
+theorem shiftDot_scales_value (t : List Char) (v : Rat) (k : Int) (h : cssValue t = some v)
+    (hexp : hasExponent t = false) :
     ∃ out, shiftDot t k = some out ∧ cssValue out = some (v * (10 : Rat) ^ k) := by
   obtain ⟨s, p, rfl, hw, hv, rfl⟩ := cssValue_sound h
   obtain ⟨I, fo, eo⟩ := p
@@ -74,27 +50,19 @@ theorem shiftDot_scales_value_partial (t : List Char) (v : Rat) (k : Int) (h : c
   | some x =>
     have := hasExponent_of_exp (s := s) (p := ⟨I, fo, some x⟩) rfl
     rw [hexp] at this; cases this
-  | none =>
-    apply shiftDot_value s fo hw.int hw.frac hv k
-    intro h0
-    apply hnz
-    rw [mv_eq_dec]
-    simp only [h0]
-    have : dec 0 (expVal none - ((fo.getD []).length : Int)) = 0 := dec_eq_zero.mpr rfl
-    rw [this]
-    unfold applySign; split <;> simp
+  | none => exact shiftDot_value s fo hw.int hw.frac hv k
 
-/-- texts with an exponent are refused -/
+/-- texts with an exponent are refused (`("", false)`) -/
 theorem shiftDot_refuses_exponent (t : List Char) (k : Int) (hexp : hasExponent t = true) : shiftDot t k = none := by
   unfold shiftDot
   unfold hasExponent at hexp
   rw [if_pos hexp]
 
-/-- **B2 (dimensions).** Whenever `mangleDimension` rewrites a non-zero time value, the unit was `ms` (up to case
-folding) and becomes `s` with value ÷ 1000, or it was `s` and becomes `ms` with value × 1000; the new value text is a
-well-formed CSS number. -/
-theorem mangleDimension_preserves_time_partial (value unit : List Char) (v : Rat) (h : cssValue value = some v)
-    (hnz : v ≠ 0) (value' unit' : List Char) (hm : mangleDimension value unit = some (value', unit')) :
+/-- **B2 (dimensions).** Whenever `mangleDimension` rewrites a well-formed time value (zero included), the unit was
+`ms` (up to case folding) and becomes `s` with value ÷ 1000, or it was `s` and becomes `ms` with value × 1000; the new
+value text is a well-formed CSS number. -/
+theorem mangleDimension_preserves_time (value unit : List Char) (v : Rat) (h : cssValue value = some v)
+    (value' unit' : List Char) (hm : mangleDimension value unit = some (value', unit')) :
     (equalFoldMs unit = true ∧ unit' = ['s'] ∧ cssValue value' = some (v * (10 : Rat) ^ (-3 : Int))) ∨
     (equalFoldS unit = true ∧ unit' = ['m', 's'] ∧ cssValue value' = some (v * (10 : Rat) ^ (3 : Int))) := by
   have hexp : hasExponent value = false := by
@@ -104,34 +72,41 @@ theorem mangleDimension_preserves_time_partial (value unit : List Char) (v : Rat
       rcases mangleDimension_cases hm with ⟨_, _, h1, _⟩ | ⟨_, _, h1, _⟩ <;>
         rw [shiftDot_refuses_exponent value _ he] at h1 <;> cases h1
   rcases mangleDimension_cases hm with ⟨hu, hu', h1, _⟩ | ⟨hu, hu', h1, _⟩
-  · obtain ⟨o, h2, hv⟩ := shiftDot_scales_value_partial value v (-3) h hexp hnz
+  · obtain ⟨o, h2, hv⟩ := shiftDot_scales_value value v (-3) h hexp
     rw [h1] at h2; cases h2
     exact Or.inl ⟨hu, hu', hv⟩
-  · obtain ⟨o, h2, hv⟩ := shiftDot_scales_value_partial value v 3 h hexp hnz
+  · obtain ⟨o, h2, hv⟩ := shiftDot_scales_value value v 3 h hexp
     rw [h1] at h2; cases h2
     exact Or.inr ⟨hu, hu', hv⟩
 
-/-! ## non-vacuity and the two counterexamples (all run on the real esbuild as well) -/
+/-! ## non-vacuity, and the formerly failing inputs -/
 
 example : isCssNumber "-0.500".toList = true := by decide
 example : isCssNumber "+.5e-3".toList = true := by decide
+example : isCssNumber "1.5e10".toList = true := by decide
+example : isCssNumber "00".toList = true := by decide
 example : isCssNumber "1.".toList = false := by decide
 example : hasExponent "-0.500".toList = false := by decide
 example : (mangleNumber "-0.500".toList).1 = "-.5".toList := by decide
 example : (mangleNumber "1.0".toList).1 = "1".toList := by decide
 example : (mangleNumber ".0".toList).1 = "0".toList := by decide
 example : (mangleNumber "0.50e3".toList).1 = ".50e3".toList := by decide
-/-- the hypothesis of `mangleNumber_preserves_value_partial` holds for "1.50e3" (exponent ends with '3') … -/
-example : hasExponent "1.50e3".toList = true → "1.50e3".toList.getLast? ≠ some '0' := by decide
-/-- … and fails for "1.5e10", where the model (like the code) drops a digit of the exponent: 1.5e10 → 1.5e1 -/
-example : (mangleNumber "1.5e10".toList).1 = "1.5e1".toList := by decide
+/-- formerly `1.5e1` (a digit of the exponent was dropped); now unchanged -/
+example : mangleNumber "1.5e10".toList = ("1.5e10".toList, false) := by decide
+/-- an exponent ending in '0' still gets the leading-zero removal -/
+example : (mangleNumber "-0.50E+20".toList).1 = "-.50E+20".toList := by decide
+example := mangleNumber_preserves_value "1.5e10".toList _ (h := rfl)
 example : shiftDot "1500".toList (-3) = some "1.5".toList := by decide
 example : shiftDot "-0.25".toList 3 = some "-250".toList := by decide
 example : shiftDot "50".toList (-2) = some ".5".toList := by decide
+/-- formerly the empty text (`scale(00%)` → `scale()`, `000ms` → `s`); now "0" -/
+example : shiftDot "00".toList (-2) = some "0".toList := by decide
+example : shiftDot "000".toList (-3) = some "0".toList := by decide
+example : shiftDot "+0.000".toList 3 = some "+0".toList := by decide
+example : shiftDot "0.00".toList 1 = some "0".toList := by decide
+example : hasExponent "00".toList = false := by decide
 example : mangleDimension "1500".toList "ms".toList = some ("1.5".toList, "s".toList) := by decide
 example : mangleDimension "0.001".toList "S".toList = some ("1".toList, "ms".toList) := by decide
-/-- the value-zero hole of `shiftDot`: no digit is left (`scale(00%)` → `scale()`, `000ms` → `s`) -/
-example : shiftDot "00".toList (-2) = some [] := by decide
-example : mangleDimension "000".toList "ms".toList = some ([], "s".toList) := by decide
+example : mangleDimension "000".toList "ms".toList = some ("0".toList, "s".toList) := by decide
 
 end EsbuildModel.C12Num
